@@ -4,7 +4,7 @@
 import glob, json, os, shutil
 V = os.path.dirname(os.path.dirname(os.path.abspath(__file__)))
 NEEDS = json.load(open(os.path.join(V, "tools", "seeded_round2.json")))
-for d in sorted(glob.glob(f"{V}/scratch/seeded_in2/C??/[C-H]")):
+for d in sorted(glob.glob(f"{V}/scratch/seeded_in2/C??/[C-J]")):
     pid, var = d.split("/")[-2], d.split("/")[-1]
     mid = pid + var
     vj = os.path.join(d, "verify.json")
@@ -24,7 +24,7 @@ for d in sorted(glob.glob(f"{V}/scratch/seeded_in2/C??/[C-H]")):
         elif fn == "harness" and os.path.isdir(src_):       # small stand-alone cargo package some demonstrations build
             shutil.copytree(src_, os.path.join(dst, fn), dirs_exist_ok=True, ignore=shutil.ignore_patterns("target"))
     old = json.load(open(os.path.join(dst, "meta.json"))) if os.path.exists(os.path.join(dst, "meta.json")) else {}
-    meta = {"id": mid, "property": pid, "origin": "fresh sub-agent (round 2) given only the property text, one-line descriptions of the two earlier seeds to avoid, and a scratch worktree",
+    meta = {"id": mid, "property": pid, "origin": "fresh sub-agent (round %s) given only the property text, one-line descriptions of the earlier seeds to avoid, and a scratch worktree" % {"C": 2, "D": 2, "E": 3, "F": 3, "G": 4, "H": 4, "I": 5, "J": 5}.get(mid[3], "?"),
             "needs_to_manifest": NEEDS.get(mid, {}).get("needs", ""),
             "confirmed": {"how": "tools/seedverify.sh in a scratch worktree of /repo HEAD: patch applies, unedited `cargo test --workspace --offline` passes (339 tests), demo fails with the patch, demo passes without it", **v},
             "kept_as_breaking_change": True,
